@@ -17,7 +17,7 @@ RULE = ('sorter cases: sequences of <=10 add/remove calls on a TopologicalSorter
         'predicate list, tweens, derivers) over <=8 names + sentinels + absent names, constraints None/name/sentinel/'
         'list of alternatives, item names incl. near-misses of the reserved names (DOMAIN, PREVIEW, ..SUBDOMAIN.., ..INGRESSION..), sorted() observed after every call; all insertion orders of small declaration sets; '
         'configurator cases: add_tween HISTORIES (adds/re-adds interleaved with implicit() and requests through freshly '
-        'made apps, with/without pyramid.tweens, autocommit or commit after each add), add_view_deriver, and '
+        'made apps, with/without pyramid.tweens, autocommit / commit after each add / ONE commit per look with adds inside config.include and top-level overrides; names also in package-relative and pkg:attr spelling; directive calls positional, with None hints omitted, deriver name omitted), add_view_deriver, and '
         'add_view/route/subscriber_predicate with weighs_more_than/weighs_less_than hints, with a real request through '
         'instrumented tweens/derivers/predicates; re-registrations hand over the VERY SAME object in part of the cases and '
         'a third of all cases pass every name/hint as an equal-but-not-identical str object. non-trivial = some observed step is an error '
@@ -34,9 +34,9 @@ TRUSTED = [
     'mechanically, anything outside subset/table is a broken tie, never a guess',
     'hand-written REFERENCE model coq/Model/C18_base.v + C18.v: for remove/add/sorted, Tweens.add_explicit/add_implicit/'
     'implicit/__call__ and _apply_view_derivers it is no longer trusted (proved equal to the regenerated program); still '
-    'trusted and shape-pinned: the predicate directives, add_default_* lists, PredicateList.add/make, Router.__init__, '
+    'trusted and shape-pinned: add_default_* lists, PredicateList.make, get_predlist, Router.__init__, '
     'is_nonstr_iter, is_string_or_iterable, as_sorted_tuple; the argument processing of add_view_deriver / _add_tween / '
-    'add_tween is regenerated (translate_args.py) and proved equal to the model, its skipped plumbing statements are '
+    'add_tween and of the predicate directive chain (add_*_predicate -> _add_predicate -> PredicateList.add) is regenerated (translate_args.py) and proved equal to the model, its skipped plumbing statements are '
     'hashed (masked pins)',
     'directive translator harness/c18/translate_args.py: its table (identity test on a bare hint = equality with the '
     'interned constant; `C in hint` only under an is_nonstr_iter guard; names are str and never None; the action runs the '
@@ -58,9 +58,9 @@ LEVEL_TEXT = ('Machine-checked theorems about the program regenerated from src/p
               'internally, tweens and view derivers nest in list order with an explicit tween list winning; plus, on the reference '
               'model, cycle_iff_error in both directions, tween histories, predicate directives, the default deriver order '
               '(secured_view first) and, after any add_view_deriver calls, every deriver outside mapped_view (user callable innermost); the regenerated argument processing of add_view_deriver / _add_tween equals the model and '
-              'feeds the judged scenarios end to end (C18_gen_derivers_scenario_judged, C18_gen_tweens_history_add); the executable wire '
+              'feeds the judged scenarios end to end (C18_gen_derivers_scenario_judged, C18_gen_tweens_history_add), likewise the predicate directive chain (C18_gen_pred_chain_is_spec, C18_gen_preds_scenario_judged); the executable wire '
               'judges accept every answer of the model (C18_wire_*_judged). Ties: generated = model theorems (no shape pins on the translated functions), regenerated '
-              'constants, 36 shape pins + 2 masked pins on the untranslated functions / statements, a structural fact on setup_registry, '
+              'constants, 31 shape pins + 3 masked pins on the untranslated functions / statements, a structural fact on setup_registry, '
               'differential run with the Coq judge on the implementation.')
 LEVEL_NOTE = ('Trusted: Coq kernel; the translator\'s primitive table (leaf claims about dict/list/set methods, the graph entry '
               'representation, the unchecked list.remove on order/req_* which is unreachable by C18_rep_reachable, the fuel = '
@@ -74,7 +74,8 @@ NAMES = list('abcdefgh')
 ABSENT = ['x', 'y']
 FIRST_T, LAST_T = facts18.SENT['FIRST'], facts18.SENT['LAST']
 from . import tw as _twmod
-TW = list(_twmod.NAMES)       # the last two contain 'MAIN' / 'INGRESS' as substrings (near-misses of the sentinels)
+TW_ABS = list(_twmod.NAMES)
+TW = list(_twmod.ALL_NAMES)   # absolute names, then other spellings (relative, pkg:attr); two absolute ones contain 'MAIN' / 'INGRESS' as substrings (near-misses of the sentinels)
 EXCVIEW = 'pyramid.tweens.excview_tween_factory'
 
 _facts_cache = {}
@@ -122,9 +123,12 @@ def gen_hint(rng, pool, before_of=None, empty_ok=True):
 
 
 def _with_copies(rng, case):
-    """a third of the cases hand over every name / hint as an equal-but-not-identical str object"""
+    """a third of the cases hand over every name / hint as an equal-but-not-identical str object; configurator cases
+    also vary the ARGUMENT FORM of the directive calls (positional, None hints omitted, deriver name omitted)"""
     if rng.random() < 0.34:
         case['copies'] = 1
+    if case['k'] != 'sorter' and rng.random() < 0.5:
+        case['style'] = rng.choice([1, 2, 3] if case['k'] == 'derivers' else [1, 2])
     return case
 
 
@@ -218,13 +222,25 @@ def gen_tweens(rng):
     """a history: rounds of add_tween calls (later rounds mostly RE-ADD existing names with other hints / another
     factory), with a look at the order (implicit() or a request through a freshly made app) after every round"""
     k = rng.choice([1, 2, 3, 4, 6])
-    live = TW[:max(2, k)]
-    if rng.random() < 0.5:                                  # bring in the names that merely CONTAIN a reserved name
-        live = rng.sample(TW, max(2, min(k, len(TW))))
-    pool = live + ['MAIN', 'INGRESS', EXCVIEW, 'absent.tween', 'absent.MAINTENANCE', 'absent.INGRESSES']
+    live = TW_ABS[:max(2, k)]
+    q = rng.random()
+    if q < 0.35:                                            # bring in the names that merely CONTAIN a reserved name
+        live = rng.sample(TW_ABS, max(2, min(k, len(TW_ABS))))
+    elif q < 0.65:                                          # other SPELLINGS of dotted names (relative, pkg:attr), also next
+        al = rng.sample(_twmod.ALIASES, rng.choice([1, 2, 3]))     # to the absolute spelling of the same factory
+        live = al + rng.sample(TW_ABS[:4], max(1, min(4, k - len(al))))
+        rng.shuffle(live)
+    pool = live + ['MAIN', 'INGRESS', EXCVIEW, 'absent.tween', 'absent.MAINTENANCE', 'absent.INGRESSES', '.tw.absent']
     explicit = []
     if rng.random() < 0.2:
-        explicit = rng.sample(TW[:4] + TW[-2:] + [EXCVIEW], rng.choice([1, 2, 3]))
+        cand = TW_ABS[:4] + TW_ABS[-2:] + [EXCVIEW] + (_twmod.ALIASES if rng.random() < 0.4 else [])
+        rng.shuffle(cand)
+        seen_attr = set()
+        for x in cand:                                      # one spelling per factory in an explicit list
+            if _twmod.attr_of(x) not in seen_attr and len(explicit) < 3:
+                explicit.append(x)
+                seen_attr.add(_twmod.attr_of(x))
+        explicit = explicit[:rng.choice([1, 2, 3])]
 
     def hint(after):
         r = rng.random()
@@ -257,7 +273,56 @@ def gen_tweens(rng):
             elif q < 0.9:
                 events.append(['request'])
     events.append(['request'] if rng.random() < 0.8 else ['implicit'])
-    return _with_copies(rng, {'k': 'tweens', 'explicit': explicit, 'autocommit': rng.random() < 0.7, 'events': events})
+    case = {'k': 'tweens', 'explicit': explicit, 'autocommit': rng.random() < 0.7, 'events': events}
+    if rng.random() < 0.3:
+        b = _to_batch(rng, case)
+        if valid(b):
+            case = b
+    return _with_copies(rng, case)
+
+
+def _to_batch(rng, case):
+    """the same history with ONE commit per look: statements accumulate, some of them inside config.include(..), and a
+    top-level statement overrides an included one of the same name (each name at most once per level and batch)"""
+    evs, seen = [], {}
+    for e in case['events']:
+        if e[0] != 'add':
+            evs.append(e)
+            seen = {}
+            continue
+        def clean(h, after):
+            bad = ('MAIN', 'INGRESS')
+            if isinstance(h, list):
+                return [t for t in h if t not in bad] or None
+            return None if h in bad else h
+        if e[1] in ('MAIN', 'INGRESS'):
+            continue
+        levels = seen.setdefault(e[1], set())
+        free = [l for l in (0, 1) if l not in levels]
+        if not free:
+            continue
+        lvl = rng.choice(free) if rng.random() < 0.6 else free[0]
+        levels.add(lvl)
+        evs.append(['add', e[1], e[2], clean(e[3], True), clean(e[4], False)] + ([1] if lvl else []))
+    # make overriding likely: repeat an included statement's name at top level (or the other way round) in its batch
+    out, batch = [], []
+    for e in evs + [None]:
+        if e is not None and e[0] == 'add':
+            batch.append(e)
+            continue
+        if batch and rng.random() < 0.6:
+            src = rng.choice(batch)
+            lv = bool(len(src) > 5 and src[5])
+            if not any(x[1] == src[1] and bool(len(x) > 5 and x[5]) != lv for x in batch):
+                twin = ['add', src[1], src[2] if rng.random() < 0.5 else src[2] + 20,
+                        rng.choice([None, src[4], rng.choice(batch)[1]]), rng.choice([None, src[3]])]
+                twin = [twin[0], twin[1], twin[2], twin[3] if twin[3] != src[1] else None, twin[4]] + ([] if lv else [1])
+                batch.insert(rng.randrange(len(batch) + 1), twin)
+        out += batch
+        batch = []
+        if e is not None:
+            out.append(e)
+    return {'k': 'tweens', 'explicit': case['explicit'], 'autocommit': 2, 'events': out}
 
 
 PRED_KINDS = ['view', 'route', 'subscriber']
@@ -426,16 +491,32 @@ def valid(case):
         if k == 'tweens':
             if not all(x in TW + [EXCVIEW] for x in case['explicit']):
                 return False
+            attrs = [_twmod.attr_of(x) for x in case['explicit']]
+            if len(set(attrs)) != len(attrs):
+                return False
             evs = _tw_events(case)
             if not evs or evs[-1][0] not in ('request', 'implicit'):
                 return False
+            batch = _tw_batch(case)
+            seen = set()
             for e in evs:
                 if e[0] == 'add':
-                    if len(e) != 5 or e[1] not in TW + ['MAIN', 'INGRESS'] or not isinstance(e[2], int) or e[2] < 1 \
-                            or not (_hint_ok(e[3]) and _hint_ok(e[4])):
+                    if len(e) not in ((5, 6) if batch else (5,)) or e[1] not in TW + ['MAIN', 'INGRESS'] \
+                            or not isinstance(e[2], int) or e[2] < 1 or not (_hint_ok(e[3]) and _hint_ok(e[4])):
                         return False
+                    if batch:
+                        # one statement per name and include level between two commits (else a conflict), and no call
+                        # that add_tween refuses (a refused call registers nothing, so it overrides nothing)
+                        key = (e[1], bool(len(e) > 5 and e[5]))
+                        flat = [t for h in (e[3], e[4]) for t in ([h] if isinstance(h, str) else (h or []))]
+                        if key in seen or e[1] in ('MAIN', 'INGRESS') or 'MAIN' in flat or 'INGRESS' in flat \
+                                or (len(e) > 5 and e[5] not in (0, 1)):
+                            return False
+                        seen.add(key)
                 elif e not in (['implicit'], ['request']):
                     return False
+                else:
+                    seen = set()
             return True
         if k == 'preds':
             if case['kind'] not in (0, 1, 2):
@@ -487,9 +568,37 @@ def _tw_events(case):
     return [['add', a[0], max(1, _tw_id(a[0])), a[1], a[2]] for a in case['adds']] + [['request']]   # older corpus format
 
 
+def _tw_batch(case):
+    return case.get('autocommit', True) == 2
+
+
+def _tw_keep(case):
+    """BATCH mode (autocommit == 2): nothing is committed before the next look, and an add may be issued inside
+    config.include(..) (6th element 1).  When the batch is committed, an included add_tween is OVERRIDDEN by a top-level
+    add_tween of the same name in the same batch (conflict resolution by include depth, C04); the surviving actions run in
+    statement order.  -> one bool per event: does it take effect (looks: True)."""
+    evs = _tw_events(case)
+    keep = [True] * len(evs)
+    if not _tw_batch(case):
+        return keep
+    batch = []
+    for i, e in enumerate(evs + [['implicit']]):
+        if e[0] == 'add':
+            batch.append(i)
+            continue
+        top = {evs[j][1] for j in batch if not (len(evs[j]) > 5 and evs[j][5])}
+        for j in batch:
+            if len(evs[j]) > 5 and evs[j][5] and evs[j][1] in top:
+                keep[j] = False
+        batch = []
+    return keep
+
+
 def _events_wire(case):
     out = []
-    for e in _tw_events(case):
+    for e, k in zip(_tw_events(case), _tw_keep(case)):
+        if not k:
+            continue
         if e[0] == 'add':
             out.append([0, [e[1], e[2], _hw(e[3]), _hw(e[4])]])
         else:
@@ -537,7 +646,13 @@ def from_wire(case, raw):
         return {'model': [_canon_outcome(o) for o in raw], 'spec': 'judge'}
     if case['k'] == 'tweens':
         out = []
-        for e, o in zip(_tw_events(case), raw):
+        keep = _tw_keep(case)
+        raw = list(raw)
+        full = [(raw.pop(0) if raw else ['MODEL-SHORT']) if k else 'OVR' for k in keep]
+        for e, o in zip(_tw_events(case), full):
+            if o == 'OVR':
+                out.append(o)
+                continue
             if e[0] == 'implicit':
                 o = _canon_outcome(o)
             elif e[0] == 'request' and o[0] == 1:
@@ -604,6 +719,15 @@ def _hint_obj(h, tup=False, fresh=False, bare_const=()):
         return _to_obj(h, fresh and h not in bare_const)
     l = [_to_obj(x, fresh) for x in h]
     return tuple(l) if tup else l
+
+
+def _call_directive(meth, first, hints, names, style):
+    """call a directive in one of the legal argument forms: 0 hints as keywords (None passed explicitly), 1 everything
+    positional, 2 keywords with the None hints OMITTED (the defaults of the signature become observable)"""
+    if style == 1:
+        return meth(*first, *hints)
+    kw = {k: h for k, h in zip(names, hints) if not (style == 2 and h is None)}
+    return meth(*first, **kw)
 
 
 def _observe_sorted(call, ident):
@@ -687,23 +811,38 @@ def run_tweens(case):
     tw.reset()
     auto = case.get('autocommit', True)
     fr = bool(case.get('copies'))
+    style = case.get('style', 0)
     settings = {'pyramid.tweens': ' '.join(case['explicit'])} if case['explicit'] else {}
-    config = C(settings=settings, autocommit=auto)
+    for n in case['explicit']:
+        if n in TW:
+            tw.rebind(n, _tw_id(n))                # the explicit list is resolved when the Configurator is set up
+    batch = _tw_batch(case)
+    auto = bool(auto) and not batch
+    config = C(settings=settings, autocommit=auto, package='harness.c18')
     config.add_view(_view)
     ident = lambda f: getattr(f, '_c18_id', 0)
     out = []
+    keep = _tw_keep(case)
     try:
-        for e in _tw_events(case):
+        for i, e in enumerate(_tw_events(case)):
             if e[0] == 'add':
-                _, name, fid, under, over = e
+                name, fid, under, over = e[1:5]
                 if name in TW:
                     tw.rebind(name, fid)
+
+                def issue(c, name=name, under=under, over=over):
+                    _call_directive(c.add_tween, [_to_obj(name, fr)],
+                                    [_hint_obj(under, fresh=fr, bare_const=('MAIN', 'INGRESS')),
+                                     _hint_obj(over, fresh=fr, bare_const=('MAIN', 'INGRESS'))], ('under', 'over'), style)
                 try:
-                    config.add_tween(_to_obj(name, fr), under=_hint_obj(under, fresh=fr, bare_const=('MAIN', 'INGRESS')),
-                                     over=_hint_obj(over, fresh=fr, bare_const=('MAIN', 'INGRESS')))
-                    if not auto:
+                    if batch and len(e) > 5 and e[5]:
+                        issue.__name__ = 'included_%d' % i          # config.include skips a spec it has seen before
+                        config.include(issue)
+                    else:
+                        issue(config)
+                    if not auto and not batch:
                         config.commit()
-                    out.append(0)
+                    out.append(0 if keep[i] else 'OVR')
                 except _impl['CE'] as ex:
                     out.append(_code(ex, ((1, 'reserved tween name'), (2, 'cannot be over INGRESS'),
                                           (3, 'cannot be under MAIN'))))
@@ -739,9 +878,9 @@ def run_preds(case):
     fr = bool(case.get('copies'))
     for a, oid in zip(case['adds'], _add_ids(case)):
         name, more, less = a[:3]
-        getattr(config, 'add_%s_predicate' % kind)(_to_obj(name, fr), objs.get(name, oid),
-                                                    weighs_more_than=_hint_obj(more, fresh=fr),
-                                                    weighs_less_than=_hint_obj(less, fresh=fr))
+        _call_directive(getattr(config, 'add_%s_predicate' % kind), [_to_obj(name, fr), objs.get(name, oid)],
+                        [_hint_obj(more, fresh=fr), _hint_obj(less, fresh=fr)],
+                        ('weighs_more_than', 'weighs_less_than'), case.get('style', 0))
     predlist = config.get_predlist(kind)
     o = _observe_sorted(predlist.sorter.sorted, ident)
     ev = []
@@ -778,8 +917,16 @@ def run_derivers(case):
     for a, oid in zip(case['adds'], _add_ids(case)):
         name, under, over = a[:3]
         try:
-            config.add_view_deriver(objs.get(name, oid), name=_to_obj(name, fr), under=_hint_obj(under, fresh=fr),
-                                    over=_hint_obj(over, fresh=fr))
+            style = case.get('style', 0)
+            d = objs.get(name, oid)
+            hs = [_hint_obj(under, fresh=fr), _hint_obj(over, fresh=fr)]
+            if style == 3:
+                d.__name__ = name                 # name omitted: add_view_deriver takes it from deriver.__name__
+                config.add_view_deriver(d, under=hs[0], over=hs[1])
+            elif style == 1:
+                config.add_view_deriver(d, _to_obj(name, fr), hs[0], hs[1])
+            else:
+                _call_directive(config.add_view_deriver, [d], [_to_obj(name, fr)] + hs, ('name', 'under', 'over'), style)
             codes.append(0)
         except _impl['CE'] as e:
             codes.append(_code(e, ((1, 'reserved view deriver name'), (2, 'cannot be over INGRESS'),
@@ -847,6 +994,10 @@ def verdicts(case, obs):
     if k == 'tweens':
         if len(obs) != len(_tw_events(case)):
             return [False]
+        keep = _tw_keep(case)
+        if any((o == 'OVR') != (not k) for o, k in zip(obs, keep)):
+            return [False]
+        obs = [o for o, k in zip(obs, keep) if k]
         res = _judge_call([3, [[n, _tw_id(n)] for n in case['explicit']], _events_wire(case), obs])
         if res is None or res == [['bad']]:
             return None if res is None else [False]
@@ -935,13 +1086,17 @@ def _tw_kinds(case, obs, names):
     out = []
     evs = _tw_events(case)
     out.append('tweens-explicit' if case['explicit'] else 'tweens-implicit')
-    out.append('tweens-autocommit' if case.get('autocommit', True) else 'tweens-commit-after-each-add')
+    out.append('tweens-batch-commit-at-looks' if _tw_batch(case) else ('tweens-autocommit' if case.get('autocommit', True) else 'tweens-commit-after-each-add'))
+    if not all(_tw_keep(case)):
+        out.append('tweens-included-add-overridden-by-top-level')
+    if any(e[0] == 'add' and len(e) > 5 and e[5] for e in evs):
+        out.append('tweens-add-inside-include')
     out.append('tweens-adds%d' % sum(1 for e in evs if e[0] == 'add'))
     seen_names, looked, readd_after_look, changed_factory = {}, False, False, False
     hints, same_obj_other_hints = {}, False
     for e, o in zip(evs, obs if isinstance(obs, list) else []):
         if e[0] == 'add':
-            out.append('tweens-add-code-%s' % (o if isinstance(o, int) else 'exc'))
+            out.append('tweens-add-code-%s' % (o if isinstance(o, int) else ('overridden' if o == 'OVR' else 'exc')))
             if o == 0:
                 if e[1] in seen_names and seen_names[e[1]] == e[2] and hints.get(e[1]) != [e[3], e[4]]:
                     same_obj_other_hints = True
@@ -974,6 +1129,16 @@ def kinds(case, obs):
     out = [k]
     if case.get('copies'):
         out.append(k + '-names-as-nonidentical-copies')
+    if case.get('style'):
+        out.append('%s-call-style-%s' % (k, {1: 'positional', 2: 'none-hints-omitted', 3: 'name-omitted'}.get(case['style'])))
+    if k == 'tweens':
+        al = [e[1] for e in _tw_events(case) if e[0] == 'add' and e[1] in _twmod.ALIASES]
+        if al:
+            out.append('tweens-name-spelling-relative-or-colon')
+            refs = [t for e in _tw_events(case) if e[0] == 'add' for h in (e[3], e[4])
+                    for t in ([h] if isinstance(h, str) else (h or []))]
+            if any(t in al for t in refs):
+                out.append('tweens-alias-named-in-a-hint')
     names = {0: 'ok', 1: 'unsat-before', 2: 'unsat-after', 3: 'cyclic', 4: 'internal', 5: 'valueerror'}
     if k == 'sorter':
         out.append('cfg%d' % case['cfg'])
